@@ -94,6 +94,17 @@ def SharedWith(ev):
   return sorted(n for n, c in count.items() if c >= 2)
 
 
+def LongNames(ev):
+  """Shape C measured on the events: the largest group of distinct WITH names /
+  aliases of 55+ characters that agree on the 50 characters before their last
+  one (long predicate names sharing a prefix)."""
+  groups = collections.defaultdict(set)
+  for k, a in ev:
+    if k in ('with', 'alias') and len(a) >= 55:
+      groups[(k, a[-51:-1])].add(a)
+  return max([len(g) for g in groups.values()] or [0])
+
+
 def Attach(rec, trace, engine, want=()):
   """Stores the trace of a compiled predicate in compact form: `line` is the
   JSON text SqlScopeTrace reads (without the id), `key` identifies equal traces
@@ -104,6 +115,7 @@ def Attach(rec, trace, engine, want=()):
                             'want': [[ord(c) for c in w] for w in want]},
                            separators=(',', ':'))
   rec['shared_with'] = SharedWith(trace['ev'])
+  rec['long_names'] = LongNames(trace['ev'])
   rec['creates'] = sum(1 for e in trace['ev'] if e[0] == 'create')
   rec['key'] = hashlib.sha256(rec['line'].encode()).hexdigest()[:20]
   kinds = collections.Counter(e[0] for e in trace['ev'])
